@@ -22,7 +22,8 @@ type c17Item struct {
 	meta      map[string]string
 	destTopic string
 	srcTopic  string
-	kind      int // 0 relayable, 1 malformed JSON, 2 JSON but not an envelope (no destination topic)
+	topicPanics bool // Requeuer: GeneratePublishTopic panics on the first delivery
+	kind      int // 0 relayable, 1 malformed JSON, 2 JSON but not an envelope (no destination topic), 3 an envelope followed by more data
 	idx       int
 }
 
@@ -173,11 +174,13 @@ func c17Forwarder(r *Run) {
 	for i := 0; i < n; i++ {
 		it := c17RandomItem(t, i)
 		it.uuid = fmt.Sprintf("%s#%d", it.uuid, i) // unique, still arbitrary
-		switch t.Int(6) {
+		switch t.Int(7) {
 		case 0:
 			it.kind = 1
 		case 1:
 			it.kind = 2
+		case 2:
+			it.kind = 3
 		}
 		it.destTopic = simrt.Pick(t, "orders", "topic with space", "t/ü")
 		items = append(items, it)
@@ -207,6 +210,15 @@ func c17Forwarder(r *Run) {
 			env = ScriptMsg{UUID: c.Msgs[0].UUID}
 		case 1:
 			env = ScriptMsg{UUID: fmt.Sprintf("bad-%d", i), Payload: "{ this is not json"}
+		case 3:
+			// a complete envelope followed by more data (two envelopes glued together, trailing garbage): not a valid envelope
+			m := message.NewMessage(it.uuid, []byte(it.payload))
+			if err := fp.Publish(it.destTopic, m); err != nil {
+				r.Fail("C17.R1", "forwarder.Publisher failed to wrap a valid message", "%v", err)
+				return
+			}
+			good := string(capture.Calls[len(capture.Calls)-1].Msgs[0].Payload)
+			env = ScriptMsg{UUID: fmt.Sprintf("glued-%d", i), Payload: good + simrt.Pick(t, "\n"+good, " trailing garbage", "{}", "\n\n[1]")}
 		default:
 			env = ScriptMsg{UUID: fmt.Sprintf("noenv-%d", i), Payload: `{"uuid":"x","payload":"eA==","metadata":{}}`}
 		}
@@ -352,6 +364,7 @@ func c17Requeuer(r *Run) {
 		case 1:
 			it.meta[requeuer.RetriesKey] = simrt.Pick(t, "not-a-number", "", "1.5", "-3", "007")
 		}
+		it.topicPanics = t.Chance(1, 5)
 		items[it.uuid] = it
 		src.Script["poison"] = append(src.Script["poison"], ScriptMsg{UUID: it.uuid, Payload: it.payload, Metadata: it.meta})
 	}
@@ -382,6 +395,11 @@ func c17Requeuer(r *Run) {
 	rq, err := requeuer.NewRequeuer(requeuer.Config{
 		Subscriber: src, SubscribeTopic: "poison", Publisher: dest.pub, Delay: delay,
 		GeneratePublishTopic: func(p requeuer.GeneratePublishTopicParams) (string, error) {
+			// (the user's callback panics on the first delivery of some messages: that delivery is not to be acked)
+			if it := items[p.Message.UUID]; it != nil && it.topicPanics && p.Message.Metadata.Get("x-attempt") == "0" {
+				r.Fault("topic-callback-panic")
+				panic("scripted panic in GeneratePublishTopic")
+			}
 			return "requeue." + p.Message.Metadata.Get("target"), nil
 		},
 	}, nopLogger())
